@@ -35,7 +35,9 @@ def _summ(name, args):
             return (args[0],)
         if name == "exec":
             co = args[0]
-            return (getattr(co, "co_filename", "?"), getattr(co, "co_name", "?"))
+            names = tuple(getattr(co, "co_names", ()))[:30]
+            consts = tuple(c for c in getattr(co, "co_consts", ()) if isinstance(c, str))[:10]
+            return (getattr(co, "co_filename", "?"), getattr(co, "co_name", "?"), names, consts)
         if name == "compile":
             return (args[1] if len(args) > 1 else None,)
         if name == "open":
